@@ -1,5 +1,6 @@
 import Demeter.Drv.Json
 import Demeter.LiqMath
+import Demeter.Uni
 namespace Demeter.Drv
 open Demeter
 
@@ -29,6 +30,6 @@ def uniHandlers : List (String × Handler) := [
     let (x, y) := getAmounts cx s ta tb l d0 d1
     pure s!"{showRat x} {showRat y}")
 ]
-def uniJHandlers : List (String × JHandler) := []
+def uniJHandlers : List (String × JHandler) := Demeter.Uni.jHandlers
 
 end Demeter.Drv
